@@ -2,6 +2,8 @@
 
 from __future__ import annotations
 
+import ast
+
 import itertools
 from fractions import Fraction as F
 
@@ -134,6 +136,29 @@ def assessment_name(v):
     return v.name if isinstance(v, EnumMember) else repr(v)
 
 
+def as_declared(repo, fi, param: str, stats):
+    """The statistics in the representation `fi` declares for `param`: a dict today, a private record (NamedTuple / dataclass)
+    with those fields after a refactoring."""
+    if stats is None:
+        return None
+    a = next((x for x in fi.node.args.args + fi.node.args.kwonlyargs if x.arg == param), None)
+    ann = ast.unparse(a.annotation).strip('\'"') if a is not None and a.annotation is not None else ''
+    for part in ann.split('|'):
+        ci = repo.module(fi.module).classes.get(part.strip())
+        if ci is not None and {n for n, _ in ci.dataclass_fields()} >= set(stats):
+            return SObj(ci, dict(stats))
+    return stats
+
+
+def stats_dict(w, stats):
+    """Statistics handed out as a dict or as a record with the same field names."""
+    if isinstance(stats, dict):
+        return stats
+    if isinstance(stats, SObj):
+        return {n: w.it.getattr(stats, n, None) for n, _ in stats.cls.dataclass_fields()}
+    return None
+
+
 def run(tier: str) -> Run:
     run = Run('C17', tier, 'other',
               'Witness-guided interpretation of peaks/_fit_peaks.py and _remove_peaks.py with recording stubs for the '
@@ -222,7 +247,7 @@ def run(tier: str) -> Run:
                                                                            'max_peak_width_factor': F(1, 2), 'min_peak_width_factor': 2})
                 req.attrs['max_peak_width_factor'] = 0.5
                 req.attrs['min_peak_width_factor'] = 2.0
-                kind, res = w.call(afi, [data, peak, popt, stats, bstats], {'fit_requirements': req})
+                kind, res = w.call(afi, [data, peak, popt, as_declared(repo, afi, 'goodness_stats', stats), as_declared(repo, afi, 'bkg_goodness_stats', bstats)], {'fit_requirements': req})
                 n2 += 1
                 violated = [k for k, v in viol.items() if v]
                 got = assessment_name(res) if kind == 'return' else None
@@ -302,10 +327,10 @@ def run(tier: str) -> Run:
     p0 = {'a': w.scalar('a0', CNT, 1), 'b': w.scalar('b0', CNT, 1)}
     kind, res = w.call(perf, [model, data], {'p0': p0, 'bounds': model.param_bounds})
     probs = []
-    if kind != 'return' or not isinstance(res, tuple) or len(res) != 2 or not isinstance(res[1], dict):
+    if kind != 'return' or not isinstance(res, tuple) or len(res) != 2 or stats_dict(w, res[1]) is None:
         probs.append(f'_perform_fit: {kind} {res!r}'[:200])
     else:
-        popt, stats = res
+        popt, stats = res[0], stats_dict(w, res[1])
         fit = w.model.fits[-1]
         if fit.get('data') is not data or fit.get('p0') is not p0:
             probs.append('the optimiser is not handed the window data and the initial parameters')
@@ -341,6 +366,7 @@ def run(tier: str) -> Run:
         best.members['coords'] = dict(data.members['coords'])
         params = {f'p{j}': w.scalar(f'p{j}', CNT, 1) for j in range(k_par)}
         kind, st = w.call(gfi, [data, best, params])
+        st = stats_dict(w, st) if kind == 'return' and stats_dict(w, st) is not None else st
         chi2 = Rat.const(0)
         for i in range(n_pts):
             chi2 = chi2 + (Rat.sym(f'y{i}') - Rat.sym(f'f{i}')) ** 2 / Rat.sym(f'v{i}', positive=True)
